@@ -145,6 +145,11 @@ func init() {
 			in.cur.gateKey = concStrArg(a[0])
 			return Value{}, true
 		},
+		"GateSeq": func(in *Interp, fr *Frame, a []Value) (Value, bool) {
+			in.gateOrder = append(in.gateOrder, concStrArg(a[0]))
+			in.yieldNow = true
+			return Value{}, true
+		},
 		"Yield": func(in *Interp, fr *Frame, a []Value) (Value, bool) {
 			in.yieldNow = true
 			return Value{}, true
